@@ -77,6 +77,8 @@ def run(ctx):
         # the same probe for the lazily initialised round constants of the MiMC packages (package-level Sum first), judged by
         # the definition of the hash in C14's trace specification
         ctx.validate_traces("C14_hashes", "TraceHashes", sorted(glob.glob(os.path.join(tdir, "c18freshmimc_*.ndjson"))))
+        # ... and for the decompression of twisted Edwards points (SetBytes first), judged by C07's Edwards codec specification
+        ctx.validate_traces("C07_codec", "TraceCodecEd", sorted(glob.glob(os.path.join(tdir, "c18freshed_*.ndjson"))))
     except Crash as ex:
         ctx.crash_violation(ex, "fresh-process probe")
     ctx.samples = [{"trace": "c18_all.ndjson", "events": open(combined).readlines()[2:5]}]
